@@ -82,8 +82,12 @@ def main():
         # demo files = untracked .go files the agent left in its worktree (outside OUT/)
         demos = []
         rc, o = (0, "") if wt == "-" else sh(["git", "status", "--porcelain", "--untracked-files=all"], cwd=wt)
+        created = set()  # files the patch itself creates are part of the change, not of the demo
+        for ln in open(patch, errors="replace"):
+            if ln.startswith("+++ b/"):
+                created.add(ln[6:].strip())
         for ln in o.splitlines():
-            if ln.startswith("?? ") and ln.endswith(".go") and not ln[3:].startswith("OUT/"):
+            if ln.startswith("?? ") and ln.endswith(".go") and not ln[3:].startswith("OUT/") and ln[3:] not in created:
                 demos.append((os.path.join(wt, ln[3:]), ln[3:]))
         ran["demo_files"] = [d[1] for d in demos]
         if not noconfirm:
@@ -97,7 +101,8 @@ def main():
             denv = dict(ENV, WT=scratch)
             rc, o = sh(["bash", "-c", demo_cmd], cwd=scratch, env=denv, timeout=1200)
             ran["demo_without_change_passes"] = rc == 0
-            sh(["git", "apply", patch], cwd=scratch)
+            rc, o = sh(["git", "apply", patch], cwd=scratch)
+            ran["patch_applied_for_demo"] = rc == 0
             rc, o = sh(["go", "build", "./..."], cwd=scratch)
             ran["builds_with_change"] = rc == 0
             rc, o = sh(["bash", "-c", demo_cmd], cwd=scratch, env=denv, timeout=1200)
